@@ -92,6 +92,11 @@ def tightness(root, samples):
                 mv = w.at.get(pos + ("U%d" % i,), [])
                 if not any(ir.witness(m, v) for v in mv):
                     out.append(("union_member_without_witness", _p(pos), f"{ir.type_shape(m)} in {ir.type_shape(t)}"))
+                if ir.kind(m) == "any" and len(t.types) > 1:
+                    # statement: Any appears only as THE element type of a container observed empty; next to a member that some
+                    # value exhibited it admits everything, which is none of the listed widenings (anchor generator.py:257-259:
+                    # Unknown is dropped from unions that have a concrete member)
+                    out.append(("any_next_to_concrete_union_member", _p(pos), ir.type_shape(t)))
         if last in ("L", "D"):
             inner, ipos = t, pos
             if k == "opt":
@@ -148,8 +153,20 @@ def execute(case):
     for clause, pos, detail in found:
         viol.append(core.viol(clause, pos.split("/")[-1] if clause != "optional_without_witness" else "field", shape,
                               f"at {pos}: {detail}; graph={cg}"))
+    # the same walk over the registry as it stands before merge_models (what a library user who does not merge renders, and the
+    # graph every merge starts from): a widening that the re-simplification inside merge_models happens to repair is still one
+    try:
+        b0 = pipeline.build(samples, types=pipeline.ALL_TYPES, dkr=case.get("dkr"), dkf=case.get("dkf"), do_merge=False)
+        found0, _ = tightness(b0.root, samples)
+    except Exception:
+        found0 = []     # a raising build is C01's business (and was seen above if it is not merge specific)
+    have = {(c, p) for c, p, _ in found}
+    for clause, pos, detail in found0:
+        if (clause, pos) not in have:
+            viol.append(core.viol(clause, "unmerged:" + (pos.split("/")[-1] if clause != "optional_without_witness" else "field"), shape,
+                                  f"before merge_models, at {pos}: {detail}; graph={ir.canon_graph([b0.root])}"))
     d = core.digest(repr(cg))
-    return {"obs": [d], "viol": viol, "trans": len(samples), "outcome": "tight" if not found else "untight",
+    return {"obs": [d], "viol": viol, "execs": 2, "trans": len(samples), "outcome": "tight" if not found else "untight",
             "show": repr(cg)[:240], "unroutable": w.unroutable,
             "nontrivial": d if ("union" in repr(cg) or "opt" in repr(cg) or len(cg) > 1) else None}
 
